@@ -158,13 +158,20 @@ Definition best_pos (l : list Q) : nat :=
 Definition clone_as (i : nat) (a : agent) : agent := {| idx := i; stp := stp a; fit := fit a; taken := taken a |}.
 Definition max_idx (pop : list agent) : nat := fold_right Nat.max 0 (map idx pop).
 
-(* TournamentSelection.select; [parents] = the tournament winners' positions, in order *)
+(* TournamentSelection.select. [parents] = positions of the individuals that were cloned, in the order of the new
+   population: with elitism the first entry is the elite's position (which of several individuals with the same maximal
+   mean fitness np.argsort ranks last is platform dependent, so the choice is an input and [elite_okb] says what is
+   required of it), then the tournament winners. *)
 Definition elite_pos (c : cfg) (pop : list agent) : nat := best_pos (map (mean_last (eval_loop c)) pop).
+Definition elite_okb (c : cfg) (pop : list agent) (e : nat) : bool :=
+  (e <? length pop) &&
+  forallb (fun a => Qle_bool (mean_last (eval_loop c) a) (mean_last (eval_loop c) (nth e pop dflt))) pop.
 Definition select (c : cfg) (pop : list agent) (parents : list nat) : list agent :=
   let mx := max_idx pop in
-  let k := if elitism c then tour_pop c - 1 else tour_pop c in
-  let winners := map (fun j => clone_as (mx + 1 + j) (nth (nth j parents 0) pop dflt)) (seq 0 k) in
-  if elitism c then nth (elite_pos c pop) pop dflt :: winners else winners.
+  if elitism c then
+    nth (nth 0 parents 0) pop dflt ::
+    map (fun j => clone_as (mx + 1 + j) (nth (nth (S j) parents 0) pop dflt)) (seq 0 (tour_pop c - 1))
+  else map (fun j => clone_as (mx + 1 + j) (nth (nth j parents 0) pop dflt)) (seq 0 (tour_pop c)).
 
 (* loop guard *)
 Definition guard (c : cfg) (pop : list agent) : bool :=
@@ -178,7 +185,8 @@ Record state := { pop : list agent; memo : mem; ck_count : nat; evo_count : nat 
 Record ginput := { g_hps : list hp; g_fit : list Q; g_parents : list nat }.
 Record goutput := { o_roll : list rres;          (* per individual: env steps, counter increment, learn calls *)
                     o_tested : list agent;       (* the population after training, evaluation and steps.append *)
-                    o_elite : option nat;        (* position of the elite when selection ran *)
+                    o_evolved : bool;            (* tournament selection + mutation ran *)
+                    o_elite_ok : bool;           (* ... and with elitism the individual kept as elite has maximal mean fitness *)
                     o_saved : bool;              (* save_population_checkpoint called *)
                     o_stop : bool }.             (* early stop taken *)
 
@@ -203,7 +211,7 @@ Definition gen (c : cfg) (st : state) (inp : ginput) : state * goutput :=
   let p2 := eval_pop p1 (g_fit inp) in
   if early_stop c p2 then
     ({| pop := p2; memo := m1; ck_count := ck_count st; evo_count := evo_count st |},
-     {| o_roll := rs; o_tested := p2; o_elite := None; o_saved := false; o_stop := true |})
+     {| o_roll := rs; o_tested := p2; o_evolved := false; o_elite_ok := true; o_saved := false; o_stop := true |})
   else
     let ev := evolves c st p2 in
     let p3 := if ev then select c p2 (g_parents inp) else p2 in
@@ -211,7 +219,8 @@ Definition gen (c : cfg) (st : state) (inp : ginput) : state * goutput :=
     let save := negb (checkpoint c =? 0) && (ck_count st <? cur (hd dflt p3) / checkpoint c) in
     ({| pop := p3; memo := m1; ck_count := if save then S (ck_count st) else ck_count st; evo_count := ec |},
      {| o_roll := rs; o_tested := p2;
-        o_elite := if ev && elitism c then Some (elite_pos c p2) else None;
+        o_evolved := ev;
+        o_elite_ok := if ev && elitism c then elite_okb c p2 (nth 0 (g_parents inp) 0) else true;
         o_saved := save;
         o_stop := false |}).
 
